@@ -242,6 +242,7 @@ pub fn parse_history(text: &str) -> Vec<sim::system::Ev> {
             "FlushDone" => Ev::FlushDone,
             "Disconnect" => Ev::Disconnect(nums[0] as u8),
             "ClientClose" => Ev::ClientClose(nums[0] as u8),
+            "WorkerQuery" => Ev::WorkerQuery,
             other => panic!("unknown event {other}"),
         });
     }
